@@ -779,6 +779,7 @@ def main():
     for rust, lean, toks in [('BLOCK_OPTIONS_MAX_LENGTH', 'blockOptionsMaxLength', block),
                              ('MAXIMUM_UNCOMMITTED_BUFFER_RESERVE_LENGTH', 'maxUncommittedReserve', block),
                              ('MAXIMUM_TOKEN_LENGTH', 'maximumTokenLength', block),
+                             ('MAXIMUM_BLOCK_SIZE', 'maximumBlockSize', block),
                              ('DEFAULT_MAX_TOTAL_MESSAGE_SIZE', 'defaultMaxTotalMessageSize', block),
                              ('DEFAULT_UNACKNOWLEDGED_LIMIT', 'defaultUnackLimit', observe)]:
         cs = find_consts(toks, rust)
